@@ -286,7 +286,7 @@ def ttns_from_tensors(basis_tree, tensors, qns, coeff=1.0):
 
 
 # ------------------------------------------------------------------------------- generators
-def gen_spec(rng, quick=True, max_dim=160, family=None, qn_size=None, kinds=None):
+def gen_spec(rng, quick=True, max_dim=160, family=None, qn_size=None, kinds=None, trivial_qn=False):
     """random rooted tree + basis sets + qn-conserving real Hamiltonian"""
     if family is None:
         family = rng.choice(["random", "random", "linear", "star", "mctdh"])
@@ -302,7 +302,7 @@ def gen_spec(rng, quick=True, max_dim=160, family=None, qn_size=None, kinds=None
             elif kind in ("spin", "elec"):
                 comp = int(rng.integers(qn_size))
                 up = [0] * qn_size
-                up[comp] = 1
+                up[comp] = 0 if trivial_qn else 1
                 sq = [[0] * qn_size, up]
                 if kind == "spin" and rng.random() < 0.3:
                     sq = sq[::-1]
@@ -316,7 +316,7 @@ def gen_spec(rng, quick=True, max_dim=160, family=None, qn_size=None, kinds=None
                 sq = []
                 for _ in range(nd):
                     v = [0] * qn_size
-                    if rng.random() < 0.7:
+                    if rng.random() < 0.7 and not trivial_qn:
                         v[int(rng.integers(qn_size))] = 1
                     sq.append(v)
                 basis.append(dict(kind="me", dofs=[f"m{i}_{j}" for j in range(nd)], nbas=nd, sigmaqn=sq))
@@ -364,7 +364,7 @@ def gen_spec(rng, quick=True, max_dim=160, family=None, qn_size=None, kinds=None
             else:
                 p = int(rng.integers(0, i))
             nodes.append(dict(parent=p, sets=g))
-    spec = dict(qn_size=qn_size, basis=basis, nodes=nodes, terms=[], family=str(family))
+    spec = dict(qn_size=qn_size, basis=basis, nodes=nodes, terms=[], family=str(family), trivial_qn=bool(trivial_qn))
     spec["terms"] = gen_terms(rng, spec)
     return spec
 
@@ -426,6 +426,8 @@ def gen_terms(rng, spec, nonint=False, scale=1.0, cluster_of=None):
         b = basis[ib]
         if b["kind"] == "spin" and not np.any(np.array(b["sigmaqn"][1]) - np.array(b["sigmaqn"][0])) and rng.random() < 0.6:
             return ["sigma_x"], [b["dof"]], [z]
+        if b["kind"] == "sho" and rng.random() < 0.5:
+            return [str(rng.choice(["x", r"b^\dagger+b"]))], [b["dof"]], [z]
         return diag_op(ib)
 
     n = len(basis)
